@@ -15,7 +15,7 @@ CHECKS = {
 }
 
 CHECKS["C15"] = dict(
-    technique="Coq proof over version gates translated from source (all versions v>=7 by lia) + exhaustive lint of the idiom corpus at every target version with typeshed-dated features",
+    technique="Coq proof over version gates translated from source (all versions v>=7 by lia; the only clock a check may read is settings.get_python_version()) and over Settings.merge / get_python_version / load_settings translated from source (the command line's version is the target) + exhaustive lint of the idiom corpus at every target version with typeshed-dated features",
     category="proof",
     text="Every settings.get_python_version() test in refurb/checks is translated (fail-closed) into a gate table; never_too_new (for all minor versions v>=7: a firing check's message needs <= v), monotone and message_switch_only_upgrades are Coq theorems over that table and a hand-written feature-minimum table. The real linter is run at every target 3.7..running version on an idiom corpus + test/data; every message is dated against typeshed guards and checked for monotonicity; model fires/variant is compared with the real runs.",
     note="Trusted: Coq kernel; gates translator; Lib/Gates.v feature table (base_min/text_min) validated by the message scan (typeshed sys.version_info guards, floor 3.8, plus a hand list of 3.8 features).",
@@ -47,7 +47,7 @@ CHECKS["C06"] = dict(
 )
 
 CHECKS["C02"] = dict(
-    technique="hand-written Coq model of stringify tied to the code by vm_compute correspondence on real mypy nodes; Coq proof of the string-literal escape round-trip for all strings; ast.parse/ast.dump oracle on curated and generated expressions",
+    technique="hand-written Coq model of stringify and stringify_operand tied to the code by vm_compute correspondence on real mypy nodes; Coq proof of the string-literal escape round-trip for all strings; ast.parse/ast.dump oracle on curated and generated expressions",
     category="proof",
     text="Partial. Lib/Stringify.v models stringify/_stringify/get_fstring_parts (precedence, placeholders, f-strings) and is compared with the real function on ~700 (quick) harvested mypy nodes per run. Proved for all code-point lists: the quoted text of a str literal reads back as the same string (str_literal_roundtrip). Not expressible without a Python parser in Coq: 'parses and has the same tree'; that is decided by execution: every quoted fragment is parsed with ast.parse and its normalised dump compared with that of the source.",
     note="Trusted: Coq kernel; the model-code correspondence (differential testing); Python's ast as oracle; repr() of non-ASCII code points assumed to leave them unescaped (harness feeds printable ones). Open findings: call callee not parenthesised (pinned by a golden file), empty f-string and nested format spec quoted as mypy's desugaring.",
@@ -79,7 +79,7 @@ CHECKS["C13"] = dict(
 )
 
 CHECKS["C08"] = dict(
-    technique="hand-written Coq model of get_source_lines/is_ignored_via_comment (regex as leftmost search over code points) tied by vm_compute correspondence; Coq proofs for all lines (appended `# noqa` / `# noqa: codes` suppress all / exactly the listed codes; locality; hash-free prefixes irrelevant); metamorphic runs through run_refurb",
+    technique="hand-written Coq model of get_source_lines/is_ignored_via_comment (leftmost hash-noqa with a quote-free tail, every comment from there on, over code points) tied by vm_compute correspondence; Coq proofs for ALL lines, whatever they already contain (appended `# noqa` suppresses every code; appended `# noqa: codes` adds exactly the listed codes to what was suppressed before; exact characterisation of suppression; locality); metamorphic runs through run_refurb",
     category="proof",
     text="Lib/Noqa.v models line splitting (universal newlines, LF only), rstrip, the `# noqa(: [^quotes]*)?$` search and the code-list tokenisation over code points; it is compared with the real is_ignored_via_comment on ~3500 (file, line, code) triples per quick run, including FF/VT/FS/GS/RS/NEL/LS/PS inside literals, CRLF/CR, BOM, quotes, earlier `# noqa` text and every comment style. Proved for every line L without a hash and every alphanumeric code list of any length: ignored (L ++ '  # noqa') c = true and ignored (L ++ '  # noqa: ' ++ join ', ' cs) c = (c in cs); suppression depends on the named physical line only. The property's metamorphic relation runs on real lint runs: adding comments to subsets of diagnosed lines removes exactly the named (line, code) pairs.",
     note="Trusted: Coq kernel; model-code correspondence for Lib/Noqa.v (in particular the regex modelling); Python's physical-line definition.",
@@ -103,7 +103,7 @@ CHECKS["C07"] = dict(
 )
 
 CHECKS["C10"] = dict(
-    technique="Coq proof (induction over the visit sequence) that a run of checks with private state satisfies run(filter sel) = filter(run), with the hypotheses discharged from an effect summary translated from every check module; fresh-process selection runs (singletons, complements, subsets; enable/disable/ignore) against the full run",
+    technique="Coq proof (induction over the visit sequence) that a run of checks with private state satisfies run(filter sel) = filter(run), with the hypotheses discharged from an effect summary translated from every check module and an inventory of state outside the check modules (memoised functions, mutated module-level containers: proved empty); fresh-process selection runs (singletons, complements, subsets; enable/disable/ignore) against the full run",
     category="proof",
     text="Partial. Lib/Run.v proves for every visit sequence, every list of checks (each a function of the node and its own state) and every selection that running the selected checks alone yields exactly the selected diagnostics of the full run, in order. That the real checks fit this model is an effect summary regenerated from source on each run (module-level objects mutated, attributes of non-local objects assigned, uses of the shared error list, names imported from other check modules) decided against a hand-reviewed allow-list by vm_compute; a new cross-module global, a write into the AST or a read of the error list breaks effects_admissible. The dynamic soundness of that static summary is not provable; the property itself is executed: every chosen selection is run in a fresh process and compared with the filtered full run.",
     note="Trusted: Coq kernel; effects translator and its allow-list (FURB120); run model. Static summary vs dynamic behaviour: execution only.",
@@ -151,10 +151,10 @@ CHECKS["C05"] = dict(
 )
 
 CHECKS["C01"] = dict(
-    technique="Coq models of the pure Python fragment (Lib/PyEval.v: values with identity, ==, is, <, in, and/or/not, conditional, min/max, sorted) and of statements over mutable lists/sets behind references (Lib/PyHeap.v), with one soundness theorem per rewrite rule in the fragment (guarded where the unguarded statement is refuted by a vm_compute witness); FURB123's cast table translated from source with a table-soundness theorem; the models are tied to CPython by vm_compute correspondence; every rule instance (72 checks), every single-site neighbouring shape and every member of the table-driven families is linted by the real refurb, the replacement is taken from the message it prints, and original and replacement are executed in CPython over typed operand products",
+    technique="Coq models of the pure Python fragment (Lib/PyEval.v: values with identity, ==, is, <, in, and/or/not, conditional, min/max, sorted) and of statements over mutable lists/sets behind references (Lib/PyHeap.v), with one soundness theorem per rewrite rule in the fragment (guarded where the unguarded statement is refuted by a vm_compute witness); FURB123's cast table translated from source with a table-soundness theorem; the models are tied to CPython by vm_compute correspondence; check() of FURB110/114/136/171 translated from source into Gallina matchers with message templates (typed symbolic translator, tied to the real functions on harvested mypy nodes) and proved sound over a syntactic evaluator (Lib/PySyn.v) for arbitrary operand expressions; every rule instance (72 checks), every single-site neighbouring shape (siblings, slice bounds, keyword arguments), every member of the table-driven families and every operand written as a compound expression is linted by the real refurb, the replacement is taken from the message it prints (and must parse as the intended tree), and original and replacement are executed in CPython over typed operand products",
     category="proof",
-    text="Partial. Proved for all operands: the 40 rule theorems in Props/C01 (FURB108/110/114/115/124/136/143/149/168/169/171/191/192 in their modelled operand types; statements FURB113/131/132/142/148/186/187; FURB123's table), each with its guard and, where the guard is needed, a refutation witness. For the other checks (library calls, file system, the remaining statements) equivalence is decided by execution over finite operand products only (value, type, exception class, stdout, aliasing, operand mutation, scratch directory tree).",
-    note="Trusted: Coq kernel; hand-written PyEval/PyHeap models (tied by correspondence on the operand products the engine executes); the cast-table translator; rule table tools/vf/props/c01_rules.py (an instance per check, replacement read from refurb's own message); CPython as the reference semantics; the list of immutable builtins in Props/C01/C01Tables.v.",
+    text="Partial. Proved for all operands: the 40 rule theorems in Props/C01 (FURB108/110/114/115/124/136/143/149/168/169/171/191/192 in their modelled operand types; statements FURB113/131/132/142/148/186/187; FURB123's table), each with its guard and, where the guard is needed, a refutation witness; and, over the check functions as translated from source (GenMatch.v) with the translated is_equivalent as sameness guard: whatever tree FURB110, 114, 136 (eight operator/branch shapes, integer operands) or 171 (guard: reflexive operand) reports evaluates like the replacement its message names, for every assignment of values to names and literals and arbitrary sub-expressions as operands (Props/C01/C01Match.v). For the other checks (library calls, file system, the remaining statements) equivalence is decided by execution over finite operand products only (value, type, exception class, stdout, aliasing, operand mutation, scratch directory tree).",
+    note="Trusted: Coq kernel; hand-written PyEval/PyHeap models (tied by correspondence on the operand products the engine executes); the cast-table translator; the matcher translator tools/vf/translate/matchers.py (tied by the matcher correspondence) and Lib/PySyn.v (names and literals are parameters; operands containing conditional/lambda/await/walrus nodes are outside the structural fragment); rule table tools/vf/props/c01_rules.py (an instance per check, replacement read from refurb's own message); CPython as the reference semantics; the list of immutable builtins in Props/C01/C01Tables.v.",
     ref="C01",
 )
 
